@@ -726,8 +726,27 @@ theorem stream_queue (k : X → X → α) (w : Nat) (hw : 0 < w) (cs : Option Na
     have hs := sinv_runS k w hw cs ref vs
     obtain ⟨q', he, _, _⟩ := enqueue_spec w hw vs _ hs.q_inv v
     rw [runS_snoc, pushAll_snoc, ← ih, he]
-    simp only [Stream.update, he]
-    split <;> [rfl; (split <;> rfl)]
+    simp only [Stream.update, he, hs.ref_eq]
+    split <;> rfl
+
+/-- `update` before `fit` (or after `reset`) raises MissingFitError and leaves the state untouched:
+the value is neither counted nor stored -/
+theorem stream_update_unfitted (k : X → X → α) (s : MMD.Stream α X) (h : s.ref = none) (v : X) :
+    s.updateErr = some .missingFit ∧ Stream.update k s v = (none, s) := by
+  simp [Stream.updateErr, Stream.update, h]
+
+/-- a fitted detector never raises MissingFitError; `reset()` unfits -/
+theorem stream_updateErr_fit (k : X → X → α) (s : MMD.Stream α X) (xs : List X) :
+    (Stream.fit k s xs).updateErr = none := by simp [Stream.updateErr, Stream.fit]
+theorem stream_reset_unfits (s : MMD.Stream α X) : (Stream.reset s).updateErr = some .missingFit := by
+  simp [Stream.updateErr, Stream.reset]
+
+/-- rejected updates leave no trace: any number of updates on an unfitted detector is the identity -/
+theorem stream_rejected_no_trace (k : X → X → α) (s : MMD.Stream α X) (h : s.ref = none) (junk : List X) :
+    runS k s junk = s := by
+  induction junk using List.reverseRecOn with
+  | nil => rfl
+  | append_singleton vs v ih => rw [runS_snoc, ih, (stream_update_unfitted k s h v).2]
 end StreamAny
 
 section StreamReal
@@ -795,3 +814,7 @@ end StreamReal
 #print axioms stream_eq_unbiased
 
 end Frouros.C09
+#print axioms Frouros.C09.stream_update_unfitted
+#print axioms Frouros.C09.stream_updateErr_fit
+#print axioms Frouros.C09.stream_reset_unfits
+#print axioms Frouros.C09.stream_rejected_no_trace
